@@ -304,6 +304,35 @@ pub fn run(ctx: &Ctx, sink: &mut Sink) {
             }
         }
     }
+    // ---- (7b) units of different categories are never convertible: every ordered pair of IDENTIFIERS (all spellings, not
+    // only the first one of each unit), through both entry points
+    let mut xp = 0u64;
+    for a in all.iter() {
+        for b in all.iter() {
+            if a.category == b.category {
+                continue;
+            }
+            xp += 1;
+            if !ctx.mine(xp) {
+                continue;
+            }
+            // quick: the short symbols (where spellings of different categories are most alike) and the first identifier
+            for ida in a.identifiers.iter() {
+                for idb in b.identifiers.iter() {
+                    if ctx.quick && ida.chars().count() > 3 && idb.chars().count() > 3 && !(*ida == a.identifiers[0] && *idb == b.identifiers[0]) {
+                        continue;
+                    }
+                    if units::resolve_unit(ida).is_err() || units::resolve_unit(idb).is_err() {
+                        continue;
+                    }
+                    sink.case(&format!("xcat|{}|{}", ida, idb), true);
+                    if let Ok(v) = cv.convert(sink, 1.0, ida, idb) {
+                        sink.viol(&format!("cross-category {}->{}", a.category.name(), b.category.name()), "units of different categories are convertible", json!({"from_identifier": ida, "to_identifier": idb, "from": uname(a), "to": uname(b), "result": v}));
+                    }
+                }
+            }
+        }
+    }
     // unresolvable spellings as either argument of the built-in: always an error
     for (k, s) in ["meterz", "", "kilo", "MA", "ma", "Ma", "foobar"].iter().enumerate() {
         if !ctx.mine(k as u64) {
